@@ -15,7 +15,7 @@ m = {
            "baseline_off_cmd": "cd /repo && GOFLAGS=-mod=mod GOPROXY=off GOSUMDB=off go test -vet=off -count=1 ./...",
            "source_commits": hook_commits, "add_only": True},
  "engines": [{"name": "gvc", "path": "/verif/gvc", "serves_properties": claimed,
-              "kind_free_text": "verification-condition generator over go/ssa of /repo's working tree; contracts are //@ comments in /repo (build tag verif) plus stated stdlib contracts in /verif/contracts; obligations discharged by z3 5.1.0, z3 4.8.12, cvc5 1.0; counterexamples replayed with go test -overlay"}],
+              "kind_free_text": "verification-condition generator over go/ssa of /repo's working tree; contracts are //@ comments in /repo (build tag verif) plus stated stdlib contracts in /verif/contracts; obligations discharged by z3 5.1.0 and cvc5 1.0 (z3 4.8.12 is not used: DESIGN.md section 7); counterexamples replayed with go test -overlay"}],
  "checks": [], "not_applicable": [],
  "notes": "Contract-based deductive verification only (see DESIGN.md). KNOWN_FINDINGS lists repaired defects (fixed:) and open findings."
 }
